@@ -71,8 +71,7 @@ def expected_text(text: str, a: str, b: str) -> tuple[str, int]:
 
 def run_case(acc: Acc, seed: int, idx: int) -> None:
     rng = rng_for(ID, seed, idx)
-    root = harness.fresh_dir("c14") / "org"
-    root.mkdir()
+    root = harness.notes_root("c14", idx)  # (some directories are reached through a symlink / a '..' component)
     acc.evaluations += 1
     names = rng.sample(NAMES, rng.randint(2, 5))
     rels = {}
@@ -131,6 +130,12 @@ def run_case(acc: Acc, seed: int, idx: int) -> None:
         before = {str(f.relative_to(root)): f.read_bytes() for f in sorted(root.rglob("*")) if f.is_file()}
         a_arg = a + (".zo" if (rng.random() < 0.4 and fname(a) != a) else "")
         b_arg = b + (".zo" if (rng.random() < 0.4 and fname(b) != b) else "")
+        if rng.random() < 0.2:
+            # page names given as FULL paths, spelled like --dir itself (which may be a symlink / hold a '..')
+            # (with the explicit .zo: zorg decides "has an extension" by looking for a '.' anywhere in the argument,
+            #  which a '..' in the directory part would satisfy - a documented limitation, not judged here)
+            a_arg, b_arg = (f"{root}/{x}" + ("" if x.endswith((".zo", ".zot", ".zoq")) else ".zo") for x in (a_arg, b_arg))
+            acc.count("rename.full_path_arguments")
         case = {"seed": seed, "idx": idx, "a": a_arg, "b": b_arg, "files": files}
         TRACER.start(root)
         r = db.cli(root, "file", "rename", a_arg, b_arg)
